@@ -11,11 +11,12 @@ from . import setop_prop as S
 
 ASSUMES = S.ASSUMES
 LEVEL_TEXT = __doc__
-RULES = {"ann": "R08.1", "ctor": "R08.4", "seed": "R08.4"}
+RULES = {"ann": "R08.1", "ctor": "R08.4", "seed": "R08.4", "pairing": "R08.2"}
 
 
 def declare(rep):
     rep.rule("R08.1", "annotations of pushed entries and emitted items: own value of a paired node, else inherited")
+    rep.rule("R08.2", "pushed entries pair the specified nodes (precondition of the annotation invariant; structure itself is C05/C07)")
     rep.rule("R08.4", "constructors: nothing inherited at the start")
 
 
